@@ -202,6 +202,16 @@ def replay(driver_exe, log, report):
                 # cancelled one, is never resumed again
                 if tm[9] != 1:
                     probs.append({"key": "trace:guard-resume-registered", "what": "_dispatch_unote_resume of timer %d whose unote is not registered in the model (DU_STATE_UNREGISTERED after a one-shot fire or an unregister)" % t})
+                # the rearm rule of _dispatch_source_invoke2 (Model/TimerRun.v invoke_step, last action): resume is issued for a
+                # registered unote that is not armed, has a finite target and neither data nor a configuration pending.
+                # A configuration that arrives between invoke2's configure test and its rearm test also makes
+                # _dispatch_source_refs_needs_rearm true: that resume is counted, not flagged (it re-arms with the old values
+                # and the set_timer's wakeup brings the configure)
+                if tm[8] or hascfg:
+                    report["resume_with_config_pending"] = report.get("resume_with_config_pending", 0) + 1
+                elif not (tm[9] == 1 and tm[0] == 0 and tm[5] == 0 and tm[2] < (1 << 63) - 1):
+                    probs.append({"key": "trace:rearm-rule", "what": "_dispatch_unote_resume of timer %d outside invoke2's rearm condition: model has registered %d armed %d pending %d target %d"
+                                  % (t, tm[9], tm[0], tm[5], tm[2])})
                 if (tm[0], tm[2], tm[3], tm[4]) != (armed, ev[4], ev[5], ev[6]) or (tm[5] != pend and not any(log[f][1] == t for f in floating)):
                     probs.append({"key": "trace:resume-state", "what": "at _dispatch_unote_resume timer %d is (armed %d target %d deadline %d interval %d pending %d), the model has (%d %d %d %d %d)"
                                   % (t, armed, ev[4], ev[5], ev[6], pend, tm[0], tm[2], tm[3], tm[4], tm[5])})
